@@ -98,16 +98,16 @@ func c03LiveCheck(tag string, p *c03Party, lc *LightningChannel, res c03Result) 
 		if !ok {
 			continue
 		}
+		vAssert(!c03SecEq(rev.Revocation, p.self, durable),
+			tag+"C06: the secret of the commitment that is current on disk is never released")
+		vAssert(!c03SecEq(rev.Revocation, p.self, durable+1),
+			tag+"C06: the secret of a future (received, unrevoked) commitment is never released")
 		vAssert(durable >= 1, tag+"C06: no revocation can be owed at durable height 0")
 		if durable == 0 {
 			continue
 		}
 		vAssert(c03SecEq(rev.Revocation, p.self, durable-1),
 			tag+"C06: a revoke_and_ack sent on reconnect releases the secret just below the durable local commitment")
-		vAssert(!c03SecEq(rev.Revocation, p.self, durable),
-			tag+"C06: the secret of the commitment that is current on disk is never released")
-		vAssert(!c03SecEq(rev.Revocation, p.self, durable+1),
-			tag+"C06: the secret of a future (received, unrevoked) commitment is never released")
 		next := input.ComputeCommitmentPoint(c03Sec(p.self, durable+1)[:])
 		vAssert(rev.NextRevocationKey != nil && rev.NextRevocationKey.IsEqual(next),
 			tag+"C06: the retransmitted revocation carries the point of durable height+1 (no gap, no repeat)")
